@@ -393,7 +393,10 @@ def m_futures_unordered_poll_next(it, a, ty, callee):
     n = len(futs.fields)
     if n == 0:
         return Adt(POLL, 0, [opt_none()])
-    start = it.choose(n) if n > 1 else 0
+    # which ready future is served first: solver-chosen by default (every completion order); units whose futures all re-arm
+    # themselves can ask for the real implementation's order instead (FIFO ready queue = push order), which the native
+    # replay then reproduces exactly
+    start = 0 if (n <= 1 or int(it.params.get('fifo_futures', 0)) == 1) else it.choose(n)
     for j in range(n):
         i = (start + j) % n
         r = poll_value(it, Ptr(p.cell, p.path + (i,)), cx)
